@@ -60,10 +60,23 @@ func c07Doc(r *rand.Rand, variant int) (*sbom.Document, string) {
 		default:
 			ids[i] = fmt.Sprintf("n%d", i)
 		}
-		doc.NodeList.Nodes = append(doc.NodeList.Nodes, gen.Node(r, ids[i], o))
+		nd := gen.Node(r, ids[i], o)
+		if !o.ValidEnum && r.Intn(3) == 0 {
+			if nd.Hashes == nil {
+				nd.Hashes = map[int32]string{}
+			}
+			nd.Hashes[gen.Pick(r, []int32{-1, 0, 18, 1000, -2147483648, 2147483647})] = "00"
+			if nd.Identifiers == nil {
+				nd.Identifiers = map[int32]string{}
+			}
+			nd.Identifiers[gen.Pick(r, []int32{-1, 0, 5, 1000, -2147483648})] = "x"
+			nd.PrimaryPurpose = append(nd.PrimaryPurpose, sbom.Purpose(gen.Pick(r, []int32{-1, 29, 1000, -2147483648})))
+			nd.Type = sbom.Node_NodeType(gen.Pick(r, []int32{-1, 2, 1000}))
+		}
+		doc.NodeList.Nodes = append(doc.NodeList.Nodes, nd)
 	}
 	cand := append(append([]string{}, ids...), "dangling", "")
-	types := []sbom.Edge_Type{sbom.Edge_contains, sbom.Edge_contains, sbom.Edge_dependsOn, sbom.Edge_Type(r.Intn(46)), sbom.Edge_Type(1000)}
+	types := []sbom.Edge_Type{sbom.Edge_contains, sbom.Edge_contains, sbom.Edge_dependsOn, sbom.Edge_Type(r.Intn(47)), sbom.Edge_Type(1000), sbom.Edge_Type(-1 - r.Intn(2)), sbom.Edge_Type(-2147483648), sbom.Edge_Type(2147483647)}
 	for i := 0; i < r.Intn(10); i++ {
 		e := &sbom.Edge{From: gen.Pick(r, cand), Type: gen.Pick(r, types)}
 		for j := 0; j < r.Intn(4); j++ {
